@@ -754,12 +754,62 @@ class HeapExec(DynExec):
         """all(...) / any(...) over a generator expression: an unknown boolean (over-approximation; the element
         expressions of the generator are assumed pure - they are tests on tokens)"""
         if isinstance(gen, Opaque) and gen.name == 'genexp':
+            r = None if is_all else self._any_over_slice(gen.data[0], st)
+            if r is not None:
+                return r
             return [(st, SBool(fresh('all' if is_all else 'any', z3.BoolSort())))]
         if isinstance(gen, tuple):
             parts = [self.truth(x, st) for x in gen]
             r = self.conj(parts) if is_all else self.disj(parts)
             return [(st, self.wrapb(r))]
         return NotImplemented
+
+    def _any_over_slice(self, node, st):
+        """any(P(t) for t in <token list>[a:b])  ==  not NOMATCH(P, list, a', b')  with the slice bounds normalised as
+        Python does.  P is the generator's element expression as a predicate of t (a closure over the current frame);
+        it is published as the ghost GENPRED<k> (k = ordinal of the generator expression in the function) so that the
+        sidecar contract can speak about the same predicate."""
+        from .symex import ClosureEnv
+        if len(node.generators) != 1 or node.generators[0].ifs or not isinstance(node.generators[0].target, ast.Name):
+            return None
+        g = node.generators[0]
+        if not (isinstance(g.iter, ast.Subscript) and isinstance(g.iter.slice, ast.Slice) and g.iter.slice.step is None):
+            return None
+        try:
+            base = self.eval1(g.iter.value, st)
+        except (OutsideSubset, PyExc):
+            return None
+        if isinstance(base, Rec) and base.kind == 'Token':
+            base = self.getattr(base, 'tokens', st)
+        if not (isinstance(base, LRef) and self.is_tokens_list(st, base)):
+            return None
+        cache = self.__dict__.setdefault('_genpred_nodes', {})
+        if id(node) not in cache:
+            lam = ast.Lambda(args=ast.arguments(posonlyargs=[], args=[ast.arg(arg=g.target.id)], kwonlyargs=[],
+                                                kw_defaults=[], defaults=[]), body=node.elt)
+            ast.fix_missing_locations(lam)
+            gens = [n for n in ast.walk(self.fn_node) if isinstance(n, ast.GeneratorExp)] if getattr(self, 'fn_node', None) else []
+            k = [i for i, n in enumerate(gens) if n is node]
+            cache[id(node)] = (lam, 'GENPRED%d' % (k[0] if k else len(cache)))
+        lam, gname = cache[id(node)]
+        pred = Func(self.fn + '.<genexp-predicate>', node=lam, closure=ClosureEnv(st.env))
+        st.ghost[gname] = pred
+        n = self.zlen(st, base)
+        sl = g.iter.slice
+        out = []
+        try:
+            lows = [(st, z3.IntVal(0))] if sl.lower is None else [
+                x for s1, v in self.eval(sl.lower, st) for x in self.norm_index(s1, v, n, True)]
+            for s1, lo in lows:
+                highs = [(s1, n)] if sl.upper is None else [
+                    x for s2, v in self.eval(sl.upper, s1) for x in self.norm_index(s2, v, n, True)]
+                for s2, hi in highs:
+                    s2.ghost[gname] = pred
+                    nm = self.spec_fn('NOMATCH', [pred, base, SInt(lo), SInt(hi)], {}, s2)[0][1]
+                    out.append((s2, SBool(z3.Not(nm.z))))
+        except OutsideSubset:
+            return None
+        return out
 
     def call_ext(self, f, args, kw, st):
         import re as _re
